@@ -194,6 +194,25 @@ def _run(prop_id, prop, tier, seed, cfg, repo, root, scratch, t0, a):
         with open(path, "w") as f:
             json.dump(rp, f, indent=1)
         ok, info = replay_file(path, repo, root, scratch)
+        if not ok and info.get("status") != "violation":
+            # the failure needs the history of the interpreter it happened in (state that an earlier call left behind
+            # in the library: a mutated default argument, a module-level memo).  Escalate the replay file: first the
+            # same case executed twice, then the runs that preceded it in its world, regenerated from their seeds.
+            variants = [{"prior_cases": [v["case"]]},
+                        {"prior_runs": {"wseed": v["wseed"], "tier": tier, "js": list(range(max(0, v["j"] - 8), v["j"]))}}]
+            for var in variants:
+                rp2 = dict(rp, history_dependent=True, **var)
+                with open(path, "w") as f:
+                    json.dump(rp2, f, indent=1)
+                ok2, info2 = replay_file(path, repo, root, scratch)
+                if info2.get("status") == "violation" and info2.get("check_id") == v["check_id"]:
+                    rp2["digest"] = info2["digest"]
+                    rp2["detail"] = info2.get("detail") or rp2["detail"]
+                    with open(path, "w") as f:
+                        json.dump(rp2, f, indent=1)
+                    ok, info = replay_file(path, repo, root, scratch)
+                    rp = rp2
+                    break
         replay_verified[path] = ok
         rp["replay_verified"] = ok
         with open(path, "w") as f:
